@@ -63,11 +63,22 @@ def model_line(c):
     t = c['op']
     o = lambda k: c.get(k) or '-'
     b = lambda k: '1' if c.get(k) else '0'
-    if t == 'write': return '\t'.join(['write', c['path'], c['bytes'].hex()])
+    if c.get('cache_blocked') and not c.get('_unblockable'):
+        # I/O fault: nothing can be moved to the cache addresses of the current contents of the listed paths
+        bl = list(c['cache_blocked'])
+        return '\t'.join(['blocked', str(len(bl))] + bl + [model_line({k: v for k, v in c.items() if k != 'cache_blocked'})])
+    if t == 'write': return '\t'.join(['writess' if c.get('same_second') else 'write', c['path'], c['bytes'].hex()])
+    if t == 'emptydir': return '\t'.join(['emptydir', c['path']])
     if t == 'delete': return '\t'.join(['delete', c['path']])
     if t == 'track': return '\t'.join(['track', o('method'), o('tob'), b('no_commit'), b('force')] + c['targets'])
     if t == 'carryin': return '\t'.join(['carryin', o('tob'), b('force')] + c['targets'])
     if t == 'recheck': return '\t'.join(['recheck', o('method'), b('force')] + c['targets'])
+    if t == 'link':
+        import c05
+        return c05.link_model_line(c)
+    if t == 'remove' and c.get('only_version') and c.get('_only_table') is not None:
+        import onlyver
+        return onlyver.model_line(c)          # `removepfx`: the selection is made on the string the user typed
     if t == 'remove':
         sel = f"only:{c['only_version'][0]}:{c['only_version'][1]}" if c.get('only_version') else b('all_versions')
         return '\t'.join(['remove', sel, b('force')] + c['targets'])
@@ -107,7 +118,7 @@ def xvc_args(c):
     if t == 'remove':
         a = ['file', 'remove', '--from-cache']
         if c.get('all_versions'): a.append('--all-versions')
-        if c.get('only_version'): a += ['--only-version', c.get('_only_hex', 'ffffffffffff')]
+        if c.get('only_version'): a += ['--only-version', c.get('_only_arg', c.get('_only_hex', 'ffffffffffff'))]
         if c.get('force'): a.append('--force')
         return a + c['targets']
     if t == 'untrack':
@@ -125,10 +136,18 @@ def xvc_args(c):
 
 def show_cmd(c):
     if c['op'] == 'write':
-        return f"write {c['path']} <{c.get('cname', fp(c['bytes']))}>"
+        return f"write {c['path']} <{c.get('cname', fp(c['bytes']))}>" + \
+            ('   [same size as before, mtime in the same second as the recorded one, other nanoseconds]' if c.get('same_second') else '')
+    if c['op'] == 'emptydir':
+        return f"mkdir -p .xvc/<algorithm>/<digest of the bytes at {c['path']}, split 3/3/58>/   [an EMPTY digest directory]"
     if c['op'] == 'delete':
         return f"delete {c['path']}"
+    if c['op'] == 'link':
+        import c05
+        return c05.show_link(c)
     try:
+        if c.get('cache_blocked'):
+            return 'xvc ' + ' '.join(xvc_args(c)) + f"   [a non-directory in the way of the cache address of the bytes at {c['cache_blocked']}: the move into the cache fails]"
         return 'xvc ' + ' '.join(xvc_args(c))
     except ValueError:
         return f"xvc file {c['op']} " + ' '.join(c.get('targets', []))
@@ -256,6 +275,58 @@ def restore_items(pre):
     return out
 
 
+def digest_dirs(sb, cfg, rel):
+    """digest directories (relative to .xvc) of the bytes now readable at `rel` under the configured algorithm: for the
+    bytes as they are and for the bytes without CR/LF (whichever way xvc decides to hash the file)"""
+    try:
+        with open(sb.path(rel), 'rb') as f:
+            b = f.read()
+    except OSError:
+        return []
+    a = ALGOS[cfg['algo']]
+    out = []
+    for v in (b, hashref.strip_crlf(b)):
+        hx = hashref.digest(a, v)
+        d = f'{hashref.PREFIX[a]}/{hx[:3]}/{hx[3:6]}/{hx[6:]}'
+        if d not in out:
+            out.append(d)
+    return out
+
+
+def block_cache(sb, cfg, paths):
+    """put an empty regular file at the first missing component of every digest directory of the bytes at `paths`;
+    returns (files made, whether every digest directory is blocked)"""
+    made, ok = [], True
+    for rel in paths:
+        for d in digest_dirs(sb, cfg, rel):
+            cur, done = sb.path('.xvc'), False
+            for comp in d.split('/'):
+                cur = os.path.join(cur, comp)
+                if os.path.isdir(cur):
+                    continue
+                if not os.path.lexists(cur):
+                    open(cur, 'w').close(); made.append(cur)
+                done = True
+                break
+            ok = ok and done
+    if not ok:
+        for f in made: os.unlink(f)
+        made = []
+    return made, ok
+
+
+def recorded_mtime_ns(sb, pre, rel):
+    """modification time xvc has on record for the path (xvc-metadata store), else the one the file has now, else None"""
+    try:
+        e = pre.recs[rel]['entity'] if pre is not None and rel in pre.recs else None
+        md = sb.store_map('xvc-metadata').get(e) if e else None
+        if md and md.get('modified'):
+            return md['modified']['secs_since_epoch'] * 10 ** 9 + md['modified']['nanos_since_epoch']
+        return os.stat(sb.path(rel)).st_mtime_ns
+    except (OSError, KeyError, TypeError):
+        return None
+
+
 class Runner:
     def __init__(self, chk, xvc, model_bin):
         self.chk, self.xvc, self.model_bin = chk, xvc, model_bin
@@ -288,12 +359,48 @@ class Runner:
             bp, bk = c['only_version']
             hist = pre.recs.get(bp, {}).get('hist', [])
             c['_only_hex'] = ''.join(f'{x:02x}' for x in hist[bk]['digest'])[:12] if bk < len(hist) else 'ffffffffffff'
+            # the string as the user types it (length, dashes, case: `only_form`) and the spelling of every recorded version
+            # of the targets for the string-level model of the selection (lib/onlyver.py, XvcRepo/OnlyVersion.lean)
+            import onlyver
+            onlyver.prepare(c, cfg, pre)
+        if c['op'] == 'link':
+            import c05
+            return c05.exec_link(sb, c)
         if c['op'] == 'write':
-            sb.write(c['path'], c['bytes']); return 0, '', ''
+            old_ns = recorded_mtime_ns(sb, pre, c['path']) if c.get('same_second') else None
+            sb.write(c['path'], c['bytes'])
+            if cfg.get('umask') is not None: os.chmod(sb.path(c['path']), 0o666 & ~cfg['umask'])
+            if old_ns is not None:
+                # the edit lands in the same whole second as the modification time xvc has on record (other nanoseconds):
+                # tools that compare sizes and whole seconds call the file unchanged.  For the model it is an edit like
+                # any other (a new stamp).  `restamp` leaves pinned times alone.
+                pinned = sb.__dict__.setdefault('pinned', set())
+                sec, ns = divmod(old_ns, 10 ** 9)
+                t = sec * 10 ** 9 + (ns + 400_000_000 + 1000 * (len(pinned) + 1)) % 10 ** 9
+                os.utime(sb.path(c['path']), ns=(t, t))
+                pinned.add(t)
+            return 0, '', ''
+        if c['op'] == 'emptydir':
+            # state left behind by a command that failed or was killed between mkdir and rename: the digest directory of the
+            # bytes now at the path exists and is empty.  An empty directory is not an object.
+            for d in digest_dirs(sb, cfg, c['path']):
+                os.makedirs(sb.path('.xvc/' + d), exist_ok=True)
+            return 0, '', ''
         if c['op'] == 'delete':
             p = sb.path(c['path'])
             if os.path.lexists(p): os.unlink(p)
             return 0, '', ''
+        if c.get('cache_blocked'):
+            # I/O fault at the move into the cache: an empty regular file sits where a directory of the cache address of the
+            # bytes now at the listed paths would be created (ENOTDIR from create_dir_all, also for root)
+            made, ok = block_cache(sb, cfg, c['cache_blocked'])
+            if not ok:
+                c['_unblockable'] = True          # the digest directory exists already: this fault cannot be staged
+            try:
+                return sb.x(*(self.cfg_args(cfg) + xvc_args(c)))
+            finally:
+                for f in made:
+                    if os.path.isfile(f) and os.path.getsize(f) == 0: os.unlink(f)
         if c.get('tmp_blocked'):
             # a regular file sits where xvc keeps the temporary entries of its workspace copies (.xvc/tmp): every copy out of
             # the cache fails in this command (the paths listed are the ones the history expects to be copied)
@@ -330,7 +437,7 @@ class Runner:
                     continue
                 if not stat.S_ISREG(st.st_mode) or st.st_nlink != 1:
                     continue
-                if st.st_mtime_ns in state['mine']:
+                if st.st_mtime_ns in state['mine'] or st.st_mtime_ns in sb.__dict__.get('pinned', ()):
                     continue
                 state['k'] += 1
                 t = (1_600_000_000 + state['k']) * 1_000_000_000
@@ -340,6 +447,7 @@ class Runner:
     def run_history(self, name, cfg, history, hooks=None, keep=False, stop_at_panic=True):
         """returns list of steps: dict(cmd, rc, err, pre: Obs, post: Obs, abs: str)"""
         sb = self.new_sandbox(name)
+        sb.umask = cfg.get('umask')          # every xvc process of this history runs under the user's umask
         table = Table()
         steps = []
         stamps = {'k': 0, 'mine': set()}
@@ -461,7 +569,10 @@ def gen_history(rng, profile='main', maxlen=12):
     METHODS = ['copy', 'symlink', 'hardlink', 'reflink'] if use_hardlink else ['copy', 'symlink', 'reflink']
     TOBS = [None] if use_hardlink else ['auto', 'text', 'binary']
     cfg = {'algo': rng.choice([0, 0, 0, 1, 2, 3]), 'method': rng.choice(['copy', 'copy'] + METHODS[1:]),
-           'tob': rng.choice(['auto', 'auto', 'auto', 'text', 'binary'])}
+           'tob': rng.choice(['auto', 'auto', 'auto', 'text', 'binary']),
+           # the user's umask: mode of the files the user writes (0666 & ~umask) and umask of every xvc process; the model has no
+           # modes beyond read-only/writable, the abstraction reports ANY write bit of a cache object (seeded change C17-4)
+           'umask': rng.choice([0o022] * 5 + [0o002, 0o000, 0o077, 0o027])}
     paths = rng.sample(PATHS, rng.randint(2, 5))
     h = []
     on_disk, tracked, method_of = {}, set(), {}
@@ -519,6 +630,8 @@ def gen_history(rng, profile='main', maxlen=12):
             if rng.random() < 0.3:
                 c['all_versions'] = False
                 c['only_version'] = [rng.choice(ts[:2]), rng.choice([0, 0, 1, 2])]
+                import onlyver
+                c['only_form'] = onlyver.derived_form(h, c)      # how the prefix is typed; does not draw from `rng`
             h.append(c)
         elif r < 0.85:
             tt = [t for t in ts if t in tracked][:2]
@@ -552,4 +665,76 @@ def gen_history(rng, profile='main', maxlen=12):
                 if dst not in paths: paths.append(dst)
                 tracked.discard(src); tracked.add(dst)
                 on_disk[dst] = on_disk.pop(src)
+    add_motifs(cfg, h, paths, METHODS)
     return cfg, h
+
+
+def same_size_variant(b):
+    """other bytes of the same length: one letter or digit replaced by another one (CR, LF and NUL bytes stay where they
+    are, so the text/binary class and the line structure are the same)"""
+    for i in range(len(b) - 1, -1, -1):
+        x = b[i]
+        if 48 <= x <= 57 or 65 <= x <= 90 or 97 <= x <= 122:
+            y = {57: 48, 90: 65, 122: 97}.get(x, x + 1)
+            return b[:i] + bytes([y]) + b[i + 1:]
+    return None
+
+
+def add_motifs(cfg, h, paths, methods):
+    """State x option combinations that the uniform draw above meets too rarely, appended to the generated history.  The
+    choices come from a generator seeded by the history itself, so the main stream of histories is what it would be without
+    them.  Every motif starts from a fresh, unique content, so it needs nothing from the state the history has reached.
+      same-second   a tracked file is rewritten with other bytes of the SAME size within the same whole second as the recorded
+                    modification time (other nanoseconds), then carry-in [--force] / track / recheck [--force]
+      uncached      a tracked file that is in the workspace while its recorded version is NOT in the cache (track --no-commit,
+                    remove --from-cache), then recheck with another method / --force
+      cross-ext     the same bytes committed under two extensions (shared digest directory), deleted and rechecked
+      empty-dir     the digest directory of a content exists and is empty when the content is committed"""
+    r2 = random.Random(hashlib.sha1(repr((sorted(cfg.items()), h)).encode()).hexdigest())
+    k = [0]
+
+    def content():
+        k[0] += 1
+        tag = f'motif-{k[0]}-{r2.randrange(10 ** 9)}'
+        return r2.choice([f'{tag}\nline two\n', f'{tag}\r\nline two\r\n', f'\x00{tag}\n\x01', f'{tag}', f'{tag}\n' + 'x' * 8100 + '\x00\n']).encode()
+    np_ = lambda: r2.random() < 0.5
+    optm = lambda: r2.choice([None] + methods)
+    if r2.random() < 0.15:
+        p = r2.choice(paths)
+        X = content()
+        h += [{'op': 'write', 'path': p, 'bytes': X, 'cname': 'motif'}, {'op': 'track', 'targets': [p], 'method': optm(), 'no_parallel': np_()}]
+        for _ in range(r2.choice([1, 1, 2])):
+            X = same_size_variant(X)
+            h.append({'op': 'write', 'path': p, 'bytes': X, 'cname': 'same-size', 'same_second': True})
+            f = r2.random()
+            if f < 0.45: h.append({'op': 'carryin', 'targets': [p], 'force': True, 'no_parallel': np_()})
+            elif f < 0.6: h.append({'op': 'carryin', 'targets': [p], 'no_parallel': np_()})
+            elif f < 0.75: h.append({'op': 'track', 'targets': [p], 'no_parallel': np_()})
+            elif f < 0.9: h.append({'op': 'recheck', 'targets': [p], 'method': optm(), 'no_parallel': np_()})
+            else: h.append({'op': 'recheck', 'targets': [p], 'force': True, 'no_parallel': np_()})
+    if r2.random() < 0.15:
+        p = r2.choice(paths)
+        h.append({'op': 'write', 'path': p, 'bytes': content(), 'cname': 'motif'})
+        if r2.random() < 0.5:
+            h.append({'op': 'track', 'targets': [p], 'method': optm(), 'no_commit': True, 'no_parallel': np_()})
+        else:
+            h += [{'op': 'track', 'targets': [p], 'method': optm(), 'no_parallel': np_()},
+                  {'op': 'remove', 'targets': [p], 'all_versions': r2.random() < 0.3}]
+        for _ in range(r2.choice([1, 2, 2])):
+            if r2.random() < 0.7: h.append({'op': 'recheck', 'targets': [p], 'method': r2.choice(methods), 'no_parallel': np_()})
+            else: h.append({'op': 'recheck', 'targets': [p], 'force': True, 'no_parallel': np_()})
+    if r2.random() < 0.10:
+        p = r2.choice(paths)
+        qs = [q for q in PATHS if ext_of(q) != ext_of(p)]
+        q = r2.choice(qs)
+        X = content()
+        h += [{'op': 'write', 'path': p, 'bytes': X, 'cname': 'motif'}, {'op': 'write', 'path': q, 'bytes': X, 'cname': 'dup'}]
+        if r2.random() < 0.5:
+            h.append({'op': 'track', 'targets': [p, q], 'method': optm(), 'no_parallel': np_()})
+        else:
+            h += [{'op': 'track', 'targets': [p], 'method': optm(), 'no_parallel': np_()}, {'op': 'track', 'targets': [q], 'method': optm(), 'no_parallel': np_()}]
+        h += [{'op': 'delete', 'path': q}, {'op': 'delete', 'path': p}, {'op': 'recheck', 'targets': [q, p], 'no_parallel': np_()}]
+    if r2.random() < 0.05:
+        p = r2.choice(paths)
+        h += [{'op': 'write', 'path': p, 'bytes': content(), 'cname': 'motif'}, {'op': 'emptydir', 'path': p},
+              {'op': 'track', 'targets': [p], 'method': optm(), 'no_parallel': np_()}, {'op': 'delete', 'path': p}, {'op': 'recheck', 'targets': [p]}]
